@@ -225,12 +225,22 @@ Definition append_epoch (c : econf) (g : engine) : result engine :=
   | None => Err EAppendRejected
   end.
 
-Inductive op := AppendEpoch (c : econf) | SampleNext | SampleAll.
+(* append_epoch inside  try: ... except RuntimeError: pass  - "fault followed by continued use":
+   EpochManager.append raises BEFORE self._configs.append(config), so a rejected config leaves the
+   manager (and the engine) exactly as it was; an accepted one is appended as usual *)
+Definition try_append_epoch (c : econf) (g : engine) : result engine :=
+  match mgr_append (g_mgr g) c with
+  | Some m => Ok (mkEng m (g_core g))
+  | None => Ok g
+  end.
+
+Inductive op := AppendEpoch (c : econf) | SampleNext | SampleAll | TryAppend (c : econf).
 Definition step (P : params) (g : engine) (o : op) : result engine :=
   match o with
   | AppendEpoch c => append_epoch c g
   | SampleNext => sample_next P g
   | SampleAll => sample_all P g
+  | TryAppend c => try_append_epoch c g
   end.
 Fixpoint steps (P : params) (g : engine) (ops : list op) : result engine :=
   match ops with
